@@ -220,8 +220,12 @@ def configs(tier):
                      bounds='one tag_ key out of 12 suffixes and one annotation_ key whose suffix is a symbolic integer or an edge string'),
                 dict(name='dep+uda', factory=lambda: Harness('du', ('dep', 'uda')),
                      bounds='one dep_ key out of 9 suffixes (valid / simple / upper-case / malformed uuid), the target task pending / without status / completed / missing, and one UDA key out of 9')]
-    return [dict(name='all-groups', factory=lambda: Harness('all', ('status', 'time', 'tag', 'annotation', 'dep', 'uda')),
-                 bounds='one entry of every group at once', time_limit_s=3300)]
+    return [dict(name='status+time+annotation', factory=lambda: Harness('sta', ('status', 'time', 'annotation')),
+                 bounds='status, one timestamp property and one annotation key at once (values as in the quick tier)', time_limit_s=3300),
+            dict(name='status+tag+dep+uda', factory=lambda: Harness('stdu', ('status', 'tag', 'dep', 'uda')),
+                 bounds='status, one tag, one dependency (all target shapes) and one UDA key at once', time_limit_s=3300),
+            dict(name='time+dep', factory=lambda: Harness('td', ('time', 'dep')),
+                 bounds='one timestamp property and one dependency at once', time_limit_s=3300)]
 
 
 ASSUMPTIONS = [
